@@ -77,6 +77,7 @@ type Config struct {
 	Deadline      time.Time
 	// FixedModel/FixedChoices turn the run into a deterministic concrete
 	// re-execution of one counterexample.
+	Witnesses    int
 	FixedModel   map[string]uint64
 	FixedChoices []int
 	Verbose       bool
@@ -288,7 +289,11 @@ func (e *Explorer) runPath(spec pathSpec, solver *Solver) {
 		}()
 		callSSA(i, nil, 0, e.fn, nil, nil)
 		e.mu.Lock()
-		need := len(e.witnesses) < 3
+		wantW := 3
+		if e.cfg.Witnesses > 0 {
+			wantW = e.cfg.Witnesses
+		}
+		need := len(e.witnesses) < wantW || (e.cfg.Witnesses > 3 && e.pathsDone%97 == 0 && len(e.witnesses) < 4*wantW)
 		e.mu.Unlock()
 		if need {
 			res, m := i.solver.Check(nil, e.cfg.AssertTimeout, i.tt.vars)
